@@ -177,7 +177,7 @@ Qed.
 
 Lemma op_mkeys_sub c f : op_mkeys (OSub c f) = sub_keys f (key_nodup (body_keys c)).
 Proof. reflexivity. Qed.
-Lemma op_names_sub c f : op_names (OSub c f) = map (name_map (km f)) (body_names c).
+Lemma op_names_sub c f : op_names (OSub c f) = map (name_map (km f)) (body_names c ++ until_names f).
 Proof. reflexivity. Qed.
 
 (* the names of the measured keys are among the names the operation touches *)
@@ -187,7 +187,7 @@ Proof.
   - simpl in *. apply in_app_iff. left. apply in_map. exact H.
   - rewrite op_mkeys_sub in H. rewrite op_names_sub. apply sub_keys_in in H.
     destruct H as [k0 [p [H0 [_ E]]]]. subst. apply (proj1 (key_nodup_in _ _)) in H0. apply (proj1 (body_keys_in _ _)) in H0.
-    destruct H0 as [m [o [Hm [Ho Hk]]]]. simpl. apply in_map. apply body_names_in. exists m, o. split; [exact Hm|].
+    destruct H0 as [m [o [Hm [Ho Hk]]]]. simpl. apply in_map. apply in_or_app. left. apply body_names_in. exists m, o. split; [exact Hm|].
     split; [exact Ho|]. rewrite Forall_forall in IH. specialize (IH m Hm). rewrite Forall_forall in IH. apply (IH o Ho). exact Hk.
 Qed.
 
@@ -204,7 +204,8 @@ Lemma mkeys_inv o o' : t_inv o = Ok o' -> op_mkeys o' = op_mkeys o.
 Proof.
   destruct o as [l|c f]; simpl.
   - destruct (isnil (lmk l) && isnil (lcs l)); [|discriminate]. intro H. inversion H. reflexivity.
-  - destruct (match reps f with RInt n => if 0 <? n then forallb (fun m => forallb op_invertible m) c else true
+  - destruct (until f) eqn:Eu; [discriminate|].
+    destruct (match reps f with RInt n => if 0 <? n then forallb (fun m => forallb op_invertible m) c else true
                           | RSym _ _ => true end); [|discriminate]. intro H. inversion H. reflexivity.
 Qed.
 
@@ -227,12 +228,12 @@ Proof.
     + intro H. apply sub_keys_in in H. destruct H as [k0 [p [H0 [Hp E]]]]. cbn [km ppath set_km] in E.
       exists (key_map (km f) (key_prefix (ppath f) (key_prefix p k0))). split.
       * apply sub_keys_in. exists k0, p. split; [exact H0|]. split; [exact Hp | reflexivity].
-      * subst. apply key_map_compose. simpl. apply str_nodup_in. apply (proj1 (key_nodup_in _ _)) in H0. apply (proj1 (body_keys_in _ _)) in H0.
+      * subst. apply key_map_compose. simpl. apply str_nodup_in. apply in_or_app. left. apply (proj1 (key_nodup_in _ _)) in H0. apply (proj1 (body_keys_in _ _)) in H0.
         destruct H0 as [mo [o [Hm [Ho Hk]]]]. apply body_names_in. exists mo, o. split; [exact Hm|]. split; [exact Ho|].
         apply op_mkeys_names. exact Hk.
     + intros [k1 [H E]]. apply sub_keys_in in H. destruct H as [k0 [p [H0 [Hp E1]]]]. subst.
       apply sub_keys_in. exists k0, p. split; [exact H0|]. split; [exact Hp|]. cbn [km ppath set_km]. symmetry.
-      apply key_map_compose. simpl. apply str_nodup_in. apply (proj1 (key_nodup_in _ _)) in H0. apply (proj1 (body_keys_in _ _)) in H0.
+      apply key_map_compose. simpl. apply str_nodup_in. apply in_or_app. left. apply (proj1 (key_nodup_in _ _)) in H0. apply (proj1 (body_keys_in _ _)) in H0.
       destruct H0 as [mo [o [Hm [Ho Hk]]]]. apply body_names_in. exists mo, o. split; [exact Hm|]. split; [exact Ho|].
       apply op_mkeys_names. exact Hk.
 Qed.
@@ -474,7 +475,8 @@ Lemma nz_inv o o' : t_inv o = Ok o' -> Nz o -> Nz o'.
 Proof.
   destruct o as [l|c f]; simpl.
   - destruct (isnil (lmk l) && isnil (lcs l)); [|discriminate]. intro H. inversion H. unfold Nz. reflexivity.
-  - destruct (match reps f with RInt n => if 0 <? n then forallb (fun m => forallb op_invertible m) c else true
+  - destruct (until f) eqn:Eu; [discriminate|].
+    destruct (match reps f with RInt n => if 0 <? n then forallb (fun m => forallb op_invertible m) c else true
                           | RSym _ _ => true end); [|discriminate].
     intro H. inversion H. unfold Nz. simpl. unfold ids_ok. simpl. destruct (reps f) as [r|b s]; simpl; [|auto].
     replace (- r =? 0) with (r =? 0).
@@ -715,7 +717,8 @@ Lemma qubits_inv o o' : t_inv o = Ok o' -> op_qubits o' = op_qubits o.
 Proof.
   destruct o as [l|c f]; simpl.
   - destruct (isnil (lmk l) && isnil (lcs l)); [|discriminate]. intro H. inversion H. reflexivity.
-  - destruct (match reps f with RInt n => if 0 <? n then forallb (fun m => forallb op_invertible m) c else true
+  - destruct (until f) eqn:Eu; [discriminate|].
+    destruct (match reps f with RInt n => if 0 <? n then forallb (fun m => forallb op_invertible m) c else true
                           | RSym _ _ => true end); [|discriminate]. intro H. inversion H. reflexivity.
 Qed.
 Lemma qubits_kmap kK kM m o : op_qubits (if isnil (op_names o) then o else t_kmap kK kM m o) = op_qubits o.
@@ -865,9 +868,10 @@ Proof.
   destruct o as [l|c f]; simpl.
   - destruct (isnil (lmk l) && isnil (lcs l)) eqn:E; [|discriminate]. intro H. inversion H; subst o1. simpl. rewrite E.
     intro H2. inversion H2. rewrite negb_involutive. destruct l; reflexivity.
-  - destruct (match reps f with RInt n => if 0 <? n then forallb (fun m => forallb op_invertible m) c else true
+  - destruct (until f) eqn:Eu; [discriminate|].
+    destruct (match reps f with RInt n => if 0 <? n then forallb (fun m => forallb op_invertible m) c else true
                           | RSym _ _ => true end); [|discriminate].
-    intro H. inversion H; subst o1. simpl.
+    intro H. inversion H; subst o1. simpl. rewrite Eu.
     destruct (match rep_neg (reps f) with RInt n => if 0 <? n then forallb (fun m => forallb op_invertible m) c else true
                           | RSym _ _ => true end); [|discriminate].
     intro H2. inversion H2. f_equal. destruct f as [r i u q k p pp e un]. unfold set_reps. simpl. f_equal.
@@ -1028,9 +1032,9 @@ Proof.
   - destruct t as [g| |m|pm0|p b]; cbn [apply_tr bind] in H.
     + cbn [t_qmap] in H. destruct (IH _ _ r _ H Hrep) as [f' [E [Hr [Hi [Hu [Hun Hq]]]]]]. exists f'. simpl in *. repeat split; auto.
       intros q Hin. rewrite (Hq q Hin). rewrite zlookup_compose by exact Hin. reflexivity.
-    + cbn [t_inv] in H. destruct (op_invertible (OSub c f)); cbn [bind] in H; [|discriminate].
+    + cbn [t_inv] in H. destruct (until f) eqn:Eu; [discriminate|]. destruct (op_invertible (OSub c f)); cbn [bind] in H; [|discriminate].
       assert (Hrep' : reps (set_reps f (rep_neg (reps f))) = RInt (- r)) by (rewrite Hrep; reflexivity).
-      destruct (IH _ _ _ _ H Hrep') as [f' [E [Hr [Hi [Hu [Hun Hq]]]]]]. exists f'. simpl in *. repeat split; auto.
+      destruct (IH _ _ _ _ H Hrep') as [f' [E [Hr [Hi [Hu [Hun Hq]]]]]]. exists f'. simpl in *. repeat split; auto; try congruence.
       rewrite Hr. unfold z_par. destruct (par ts); simpl; [rewrite Z.opp_involutive|]; reflexivity.
     + destruct (isnil (op_names (OSub c f))); cbn [t_kmap] in H; destruct (IH _ _ r _ H Hrep) as [f' [E [Hr [Hi [Hu [Hun Hq]]]]]];
         exists f'; simpl in *; repeat split; auto.
@@ -1330,4 +1334,106 @@ Theorem unroll_ops kK kM : forall n c f ms,
   strip_circ ms = ops_nested false (fun q => q) (OSub c f).
 Proof.
   intros n c f ms H Hok. apply (unroll_ops_main kK kM n (OSub c f) [] (OSub c f) ms Hok eq_refl). exact H.
+Qed.
+
+(* ---- repeat_until keys under with_measurement_key_mapping: the names the loop condition reads after a further key
+   map are the images of the names it read before - also for a key the loop body never mentions (a key measured in an
+   enclosing scope).  The dict composition must therefore range over the names of the body AND of the condition. ---- *)
+Theorem until_names_kmap kK kM m c f :
+  exists f', t_kmap kK kM m (OSub c f) = OSub c f' /\ until f' = until f /\
+             until_read_names f' = map (name_map m) (until_read_names f).
+Proof.
+  eexists. split; [reflexivity|]. split; [reflexivity|].
+  unfold until_read_names. cbn [set_km km until until_names].
+  assert (E : until_names (set_km f (kmap_compose (str_nodup (circ_names c ++ until_names f)) (km f) m)) = until_names f) by reflexivity.
+  rewrite E. rewrite map_map. apply map_ext_in. intros s Hs.
+  apply lookup_compose. apply str_nodup_in. apply in_or_app. right. exact Hs.
+Qed.
+
+(* composing over the names of the body only (what CircuitOperation.with_measurement_key_mapping does today, F20) loses
+   the renaming of an outside key of the condition: loop [X(q2); M(q2, b)] until a == b, under {a: z} *)
+Definition f20_body : circ := [[OLeaf (Leaf 10 false [2] [MK [] "b"] [] [])]].
+Definition f20_fields : subf := SubF (RInt 1) None false [] [] [] [] [] (Some (CSym 5 [MK [] "a"; MK [] "b"])).
+Theorem until_names_kmap_body_only_refuted kK kM :
+  exists f', t_kmap_body_only kK kM [("a", "z")]%string (OSub f20_body f20_fields) = OSub f20_body f' /\
+             until_read_names f' = ["a"; "b"]%string /\
+             map (name_map [("a", "z")]%string) (until_read_names f20_fields) = ["z"; "b"]%string.
+Proof. eexists. split; [reflexivity|]. split; reflexivity. Qed.
+
+(* ---- the repeat_until condition is scoped like a classical control placed in a new last moment of the loop body:
+   one pass of the loop (_mapped_single_loop) over body ++ [probe] is the pass over the body followed by the probe whose
+   condition is exactly the mapped repeat_until condition (_mapped_repeat_until).  This is what lets the harness replace
+   a loop by plain repetitions of body ++ [probe] and read the loop condition off a loop-free circuit. ---- *)
+Lemma cond_rescope_ext kK kM path b b' c : (forall x, In x b <-> In x b') ->
+  cond_rescope kK kM path b c = cond_rescope kK kM path b' c.
+Proof.
+  intro H. destruct c as [k i|k i t e m|e s]; cbn [cond_rescope].
+  - rewrite (rescope_key_ext path b b' k H). reflexivity.
+  - rewrite (rescope_key_ext path b b' k H). reflexivity.
+  - f_equal. apply map_ext. intro k. rewrite (rescope_key_ext path b b' k H). reflexivity.
+Qed.
+
+Lemma key_nodup_nil l : key_nodup l = [] -> l = [].
+Proof.
+  destruct l as [|k r]; [reflexivity|]. intro H. exfalso.
+  assert (Hin : In k (key_nodup (k :: r))) by (apply key_nodup_in; left; reflexivity).
+  rewrite H in Hin. destruct Hin.
+Qed.
+
+Lemma probe_kmap kK kM m u qs :
+  (if isnil (op_names (probe_leaf u qs)) then probe_leaf u qs else t_kmap kK kM m (probe_leaf u qs))
+  = probe_leaf (cond_key_map kK kM m u) qs.
+Proof.
+  destruct (isnil (op_names (probe_leaf u qs))) eqn:E; [|reflexivity].
+  unfold probe_leaf in *. cbn [op_names lmk lcs map conds_keys List.concat app] in E.
+  destruct u as [k i|k i t e mm|e s]; cbn [cond_keys map app isnil] in E; try discriminate.
+  rewrite app_nil_r in E. destruct (key_nodup s) as [|k0 r] eqn:En; [|discriminate].
+  apply key_nodup_nil in En. subst s. reflexivity.
+Qed.
+
+Lemma probe_qmap g u qs : t_qmap g (probe_leaf u qs) = probe_leaf u (map g qs).
+Proof. reflexivity. Qed.
+Lemma probe_resolve pm u qs : t_resolve pm (probe_leaf u qs) = probe_leaf u qs.
+Proof. reflexivity. Qed.
+
+Lemma any_loop_app_probe kK kM c f u qs :
+  rep_negative (reps f) = false ->
+  any_loop kK kM (c ++ [[probe_leaf u qs]]) f =
+  bind (any_loop kK kM c f)
+       (fun a => Ok (a ++ [[probe_leaf (if isnil (km f) then u else cond_key_map kK kM (km f) u)
+                                      (if isnil (qm f) then qs else map (zlookup (qm f)) qs)]])).
+Proof.
+  intro Hn. unfold any_loop. rewrite Hn. cbn [bind].
+  destruct (isnil (qm f)); destruct (isnil (km f)); destruct (isnil (pm f));
+    rewrite ?map_app; cbn [map]; unfold moment_kmap; cbn [map]; rewrite ?probe_qmap, ?probe_kmap, ?probe_resolve; reflexivity.
+Qed.
+
+Theorem until_is_last_control kK kM c f u qs s :
+  until f = Some u -> rep_negative (reps f) = false -> (ids f = None \/ use_ids f = false) ->
+  single_loop kK kM (c ++ [[probe_leaf u qs]]) f None = Ok s ->
+  exists s0 u' qs', single_loop kK kM c f None = Ok s0 /\ s = s0 ++ [[probe_leaf u' qs']] /\
+                    mapped_until kK kM f (op_mkeys (OSub c f)) = Some u'.
+Proof.
+  intros Hu Hn Hids H. unfold single_loop in *. rewrite (any_loop_app_probe kK kM c f u qs Hn) in H.
+  destruct (any_loop kK kM c f) as [a| |] eqn:Ea; cbn [bind] in H; try discriminate.
+  rewrite rescope_app in H. cbn [circ_rescope map t_rescope probe_leaf uid sgn lqs lmk lcs lps] in H.
+  inversion H as [Hs]. clear H.
+  eexists. eexists. eexists. cbn [bind]. split; [reflexivity|]. split; [unfold probe_leaf; reflexivity|].
+  unfold mapped_until. rewrite Hu. f_equal. apply cond_rescope_ext. intro x. rewrite !in_app_iff.
+  assert (Hk : In x (op_mkeys (OSub c f)) <-> In x (List.concat (map moment_mkeys (circ_rescope kK kM (ppath f) (ext f) a)))).
+  { change (List.concat (map moment_mkeys (circ_rescope kK kM (ppath f) (ext f) a)))
+      with (body_keys (circ_rescope kK kM (ppath f) (ext f) a)).
+    assert (Hsl : single_loop kK kM c f None = Ok (circ_rescope kK kM (ppath f) (ext f) a))
+      by (unfold single_loop; rewrite Ea; reflexivity).
+    rewrite (single_loop_keys kK kM c f None _ x Hsl). rewrite op_mkeys_sub, sub_keys_in. split.
+    - intros [k0 [p [H0 [Hp E]]]]. exists k0. split; [apply key_nodup_in; exact H0|].
+      assert (p = []) as ->.
+      { unfold id_prefixes in Hp. destruct Hids as [Hi|Hi]; rewrite Hi in Hp.
+        - destruct Hp as [<-|[]]. reflexivity.
+        - destruct (ids f); destruct Hp as [<-|[]]; reflexivity. }
+      exact E.
+    - intros [k0 [H0 E]]. exists k0, []. split; [apply key_nodup_in; exact H0|]. split; [|exact E].
+      unfold id_prefixes. destruct Hids as [Hi|Hi]; rewrite Hi; [left; reflexivity|].
+      destruct (ids f); left; reflexivity. }
+  rewrite Hk. tauto.
 Qed.
